@@ -50,6 +50,13 @@ def parensRule (parent : BinOp) (isRhs : Bool) (op : BinOp) : Bool :=
   let sameLevelNeedsParens := if isRhs then Gen.binLeftAssoc parent else !Gen.binLeftAssoc op
   decide (Gen.binPrec op < Gen.binPrec parent) || (Gen.binPrec op == Gen.binPrec parent && sameLevelNeedsParens)
 
+/-- the `Exp::And | Or | Xor | Implies | Iff` arm of `operand_to_string`: as an operand of a `BinOp` the
+dedicated logic nodes are parenthesised (their own `Display` prints no parentheses). -/
+def logicWrap (ctx : Option (BinOp × Bool)) (s : String) : String :=
+  match ctx with
+  | none => s
+  | some _ => "(" ++ s ++ ")"
+
 /-- `ctx = none`: `impl Display for Exp`;  `ctx = some (parent, isRhs)`: `operand_to_string(parent, is_rhs)`
 (which falls back to `Display` for everything but a `BinOp`; `to_string_with_precedence(last)` is
 `operand_to_string(last, false)`). -/
@@ -62,12 +69,12 @@ def showE (tok : α → String) : Option (BinOp × Bool) → Exp α → String
   | _, .num v => tok v
   | _, .var n => n
   | _, .abs e => "abs{ " ++ showE tok none e ++ " }"
-  | _, .and es => joinWith " and " (es.map fun e => logicOperand e (showE tok none e))
-  | _, .or es => joinWith " or " (es.map fun e => logicOperand e (showE tok none e))
+  | ctx, .and es => logicWrap ctx (joinWith " and " (es.map fun e => logicOperand e (showE tok none e)))
+  | ctx, .or es => logicWrap ctx (joinWith " or " (es.map fun e => logicOperand e (showE tok none e)))
   | _, .not e => if isLeaf e then "not " ++ showE tok none e else "not (" ++ showE tok none e ++ ")"
-  | _, .xor a b => logicOperand a (showE tok none a) ++ " xor " ++ logicOperand b (showE tok none b)
-  | _, .implies a b => logicOperand a (showE tok none a) ++ " implies " ++ logicOperand b (showE tok none b)
-  | _, .iff a b => logicOperand a (showE tok none a) ++ " iff " ++ logicOperand b (showE tok none b)
+  | ctx, .xor a b => logicWrap ctx (logicOperand a (showE tok none a) ++ " xor " ++ logicOperand b (showE tok none b))
+  | ctx, .implies a b => logicWrap ctx (logicOperand a (showE tok none a) ++ " implies " ++ logicOperand b (showE tok none b))
+  | ctx, .iff a b => logicWrap ctx (logicOperand a (showE tok none a) ++ " iff " ++ logicOperand b (showE tok none b))
   | _, .min es => "min{ " ++ joinWith ", " (es.map fun e => showE tok none e) ++ " }"
   | _, .max es => "max{ " ++ joinWith ", " (es.map fun e => showE tok none e) ++ " }"
   | _, .un op e =>
